@@ -1568,6 +1568,10 @@ impl Reference
 					{
 						Some(ReferenceStep::Element { is_endless, .. }) =>
 						{
+							if is_immediate_parameter && !is_endless
+							{
+								indices.push(llvm.const_i32(0));
+							}
 							!is_endless
 						}
 						Some(ReferenceStep::Member { .. }) =>
